@@ -19,7 +19,6 @@ import (
 	"math/big"
 	"os"
 	"runtime"
-	"runtime/pprof"
 	"sort"
 	"strconv"
 	"strings"
@@ -375,7 +374,7 @@ func (s *c14Seq) genTx() (*types.Transaction, string) {
 	}
 	wBig := 0
 	if s.sc%3 == 0 { // large payloads only in every third scenario (they are what a leaked replica retains)
-		wBig = 6
+		wBig = 3
 	}
 	switch s.r.Pick(56, 14, wCer, wBig) {
 	case 0: // plain transfer of a contended sender, any nonce / epoch relation
@@ -643,6 +642,46 @@ func (s *c14Seq) opStopSync() *c14Op {
 	s.out.Count("stop_sync", 1)
 	s.segment = append(s.segment, "T")
 	return &c14Op{kind: "stopsync", reset: head}
+}
+
+// opGasProbe fills the pool with large-payload transfers of the rich senders so that what is
+// executable exceeds the block gas cap (the offered list is checked after every op anyway).
+func (s *c14Seq) opGasProbe() *c14Op {
+	st := s.state()
+	if s.syncing || st.ValidationPeriod() != state.NonePeriod {
+		return nil
+	}
+	op := &c14Op{kind: "gasprobe"}
+	var d []string
+	for _, from := range s.rich {
+		for k := 0; k < 2; k++ {
+			n := s.poolMaxNonceIncl(from.Addr, st.Epoch(), op.accepted) + 1
+			to := s.senders[0].Addr
+			tx := c14Tx(s.w, from, types.SendTx, &to, s.amount(), s.r.Bytes(s.r.Range(120, 150)*1024), n, st.Epoch(), 12)
+			err := s.pool.AddExternalTxs(validation.MempoolTx, tx)
+			op.submitted = append(op.submitted, tx)
+			if err == nil {
+				op.accepted = append(op.accepted, tx)
+			} else if strings.HasPrefix(c14ErrClass(err), "limit:") {
+				s.out.Count("limit_rejections", 1)
+			}
+			d = append(d, fmt.Sprintf("%s->%s", s.txStr(tx), c14ErrClass(err)))
+			s.gossip(tx)
+		}
+	}
+	s.logf("gasprobe %v", d)
+	s.segment = append(s.segment, "g")
+	return op
+}
+
+func (s *c14Seq) poolMaxNonceIncl(a common.Address, epoch uint16, extra []*types.Transaction) uint32 {
+	n := s.poolMaxNonce(a, epoch)
+	for _, tx := range extra {
+		if tx.Epoch == epoch && senderOf(tx) == a && tx.AccountNonce > n {
+			n = tx.AccountNonce
+		}
+	}
+	return n
 }
 
 // opOrderProbe: k consecutive valid transfers of a sender the pool holds nothing of are
@@ -979,6 +1018,9 @@ func (s *c14Seq) step() {
 	var op *c14Op
 	var queues map[common.Hash]bool
 	sel := s.r.Pick(52, 9, 4, 22, 3, 7, 5)
+	if s.opNo == 45 || s.opNo == 400 {
+		sel = 7 // twice per scenario: push the executable txs over the block gas cap
+	}
 	if sel == 3 || sel == 5 || sel == 6 {
 		queues = s.pendingQueueSnapshot()
 	}
@@ -999,6 +1041,8 @@ func (s *c14Seq) step() {
 			op = s.opStopSync()
 		case 6:
 			op = s.opOrderProbe()
+		case 7:
+			op = s.opGasProbe()
 		}
 	})
 	if p != nil {
@@ -1100,19 +1144,6 @@ func TestVerifC14Seq(t *testing.T) {
 	rep := verifutil.NewReport()
 	defer rep.Write()
 	nScen := envIntC14("VERIF_C14_NSCEN", verifutil.Scale(6, 60))
-	defer func() {
-		if f := os.Getenv("VERIF_C14_HEAP"); f != "" {
-			runtime.GC()
-			if fh, err := os.Create(fmt.Sprintf("%s-%d", f, verifutil.Shard())); err == nil {
-				pprof.WriteHeapProfile(fh)
-				fh.Close()
-			}
-			if fh, err := os.Create(fmt.Sprintf("%s-gor-%d", f, verifutil.Shard())); err == nil {
-				pprof.Lookup("goroutine").WriteTo(fh, 1)
-				fh.Close()
-			}
-		}
-	}()
 	nOps := verifutil.Scale(500, 900)
 	for sc := 0; sc < nScen; sc++ {
 		var progress int64
